@@ -133,6 +133,9 @@ func (k Keeper) fulfillBetByParticipationQueue(
 				}
 				for _, exposure := range eUpdate {
 					k.SetParticipationExposure(ctx, exposure)
+					// the exposure is fulfilled, so the participation should not wait
+					// in the fulfillment queue of the odds anymore.
+					k.removeFromFulfillmentQueue(ctx, exposure.OrderBookUID, exposure.OddsUID, exposure.ParticipationIndex)
 				}
 			}
 		}
